@@ -14,7 +14,11 @@ contains the row's position (the spy cannot see this: position and properties co
 A second family of cases (`build_reuse_config` / `_run_reuse`) uses configuration *objects more than once*: 1..3 consecutive
 calls on the same python configuration object, one group mapping listed several times in the group list, `attrs` / location /
 date objects shared by different groups, and the same written as yaml text (anchors / aliases) handed over as stream or file
-name.  Every call is judged by the same oracles (`judge`) against a deep copy of the content taken before the first call."""
+name.  Every call is judged by the same oracles (`judge`) against a deep copy of the content taken before the first call.
+A third family (`build_session` / `_run_sessions`) uses *a name or object again with other content*: the same yaml file name
+(or one of two names) rewritten between calls, one stream object rewritten and rewound, one python object whose content is replaced
+in place; the GeoJSON location files and the output file keep their names through such a session too.  Every call is judged by
+`judge` against the configuration written for that call."""
 import copy, importlib, io, json, os, shutil, tempfile
 from collections import Counter
 import numpy as np
@@ -47,11 +51,24 @@ RULE = ("1..6 groups; num in {0,1,2,3,5,12,40} (int or numpy integer); location 
         "very same configuration object (each call with or without `fname`; a GeoJSON stream is replaced by a fresh stream in the "
         "same group mapping before each call, a mapping listed twice names a GeoJSON file), at least one thing used twice in "
         "every python plan; yaml plans: the configuration dumped by yaml.safe_dump (key order kept, block or flow style; shared "
-        "objects become anchor / alias and are one object again after loading), handed over as a stream or as a file name, 1..2 calls.")
+        "objects become anchor / alias and are one object again after loading), handed over as a stream or as a file name, 1..2 calls. "
+        "Third family (60 / 800 sessions, a name or object used again with OTHER content): 2..5 configurations handed to make_release "
+        "one after the other in one process through one channel - one yaml file name rewritten between the calls (half of the "
+        "sessions), two yaml file names used in random turn (3..5 calls), one stream object truncated / rewritten / rewound, or one "
+        "python dict / list whose content (and, place by place, whose group mappings' content) is replaced in place; each next "
+        "configuration is fresh (45 %: 1..4 groups, num in {0,1,2,3,5,12}, any container / seed / columns as above), the "
+        "version before the previous one again (15 % from the third call), or the previous one after 1..3 edits out of: other num "
+        "of one group (per-particle value lists continued cyclically), a group replaced / appended / deleted / two groups swapped, "
+        "seed / columns drawn again, other container; yaml channels use plain yaml-representable values and name GeoJSON files, the "
+        "python channel the rich value types and GeoJSON as file or stream; the GeoJSON file of group position g keeps its name "
+        "through the session (rewritten with the layer of that call); 40 % of the calls write the output file, which keeps one "
+        "name through the session in half of the sessions. Every call is judged on its own.")
 ASSUMPTIONS = ["rows with equal date strings are compared as multisets (pandas' quicksort is unstable)",
                "a configuration in which one mapping object occurs several times (python [g, g], yaml alias) means its content "
                "written out: a group mapping listed m times is m groups of that content; handing the same configuration "
-               "object to make_release again is again a call on that content"]
+               "object to make_release again is again a call on that content",
+               "a configuration given as a file name / stream / python object is the content that name / stream / object holds "
+               "when make_release is called (third family: the content is replaced between calls)"]
 SITE = "ladim_plugins/release/makrel.py::make_release"
 SPECIAL = ["num", "date", "location", "attrs"]
 
@@ -786,6 +803,269 @@ def _run_reuse(ctx, mk, drv, pend, tmp):
                 pend.append((j, res, cs))
 
 
+# ----------------------------------------------------------------------------- third family: names / objects used again
+def _gen_glob(rng, groups, container):
+    """global keys (seed / columns) for a set of groups, drawn like build_config does"""
+    glob = {}
+    if container == "list":
+        return glob                               # a list of groups cannot carry global keys
+    if rng.random() < 0.5:
+        glob["seed"] = rng.randrange(1000) if rng.random() >= 0.05 else 0
+    if rng.random() < 0.5:
+        allc = ["date", "longitude", "latitude", "depth", "grp", "tag"]
+        extra = sorted(attr_names(groups) - set(allc))
+        if rng.random() < 0.6:
+            cols = allc + rng.sample(extra, rng.randrange(0, len(extra) + 1))
+        else:
+            pool = allc + extra
+            cols = rng.sample(pool, rng.randrange(1, len(pool) + 1))
+        rng.shuffle(cols)
+        glob["columns"] = cols
+    return glob
+
+
+def _set_markers(conf, g):
+    """the oracle's markers of a group mapping that now stands at position g (kept where they were: explicit / implicit)"""
+    where = conf["attrs"] if "grp" in conf.get("attrs", {}) else conf
+    where["grp"] = g + 1
+    where["tag"] = [float(g * 1000000 + i) for i in range(int(conf["num"]))]
+
+
+def _session_group(rng, g, rich):
+    form, conf = relgen.gen_group(rng, g, yamlable=not rich, force_num=rng.choice([0, 1, 2, 3, 5, 12]), rich=rich)
+    if not rich and rng.random() < 0.5:
+        _markers_implicit(conf)
+        if not conf["attrs"] and rng.random() < 0.5:
+            del conf["attrs"]
+    lay = False
+    if rng.random() < (0.6 if form == "geojson" else 0.12):
+        form = "geojson"; conf["location"] = gen_feature_location(rng); lay = True
+    return form, conf, lay
+
+
+def _resize(v, n_old, n_new):
+    """a per-particle value list of a group whose num changes from n_old to n_new (continued cyclically)"""
+    if isinstance(v, (list, tuple, np.ndarray)) and len(v) == n_old:
+        v = list(v)
+        return [v[i % n_old] for i in range(n_new)] if n_old else [float(i) for i in range(n_new)]
+    return v
+
+
+def _session_version(rng, prev, rich):
+    """one version of a configuration: a fresh one, or the previous one after the kind of edits a user makes between two
+    runs (other num of a group, a group added / removed / replaced / moved, other seed / columns, other container)"""
+    if prev is None or rng.random() < 0.45:
+        ng = rng.randrange(1, 5)
+        gens = [_session_group(rng, g, rich) for g in range(ng)]
+        groups = [c for _, c, _ in gens]; forms = [f for f, _, _ in gens]; layout = [l for _, _, l in gens]
+        container = rng.choice(["flat", "list", "grouped"]) if ng == 1 else rng.choice(["list", "grouped", "grouped"])
+        return dict(groups=groups, forms=forms, layout=layout, container=container, glob=_gen_glob(rng, groups, container),
+                    change="first version" if prev is None else "fresh configuration")
+    groups = copy.deepcopy(prev["groups"]); forms = list(prev["forms"]); layout = list(prev["layout"])
+    container = prev["container"]; glob = copy.deepcopy(prev["glob"])
+    ops = []
+    for _ in range(rng.choice([1, 1, 2, 3])):
+        op = rng.choice(["num", "num", "replace", "append", "delete", "swap", "glob", "container"])
+        ng = len(groups)
+        if op == "num":
+            g = rng.randrange(ng); conf = groups[g]; n_old = int(conf["num"])
+            n_new = rng.choice([n for n in (0, 1, 2, 3, 5, 12) if n != n_old])
+            for d in (conf, conf.get("attrs", {})):
+                for k in list(d):
+                    if k not in SPECIAL:
+                        d[k] = _resize(d[k], n_old, n_new)
+            conf["num"] = n_new
+        elif op == "replace":
+            g = rng.randrange(ng); forms[g], groups[g], layout[g] = _session_group(rng, g, rich)
+        elif op == "append" and ng < 5:
+            f, c, l = _session_group(rng, ng, rich); forms.append(f); groups.append(c); layout.append(l)
+        elif op == "delete" and ng > 1:
+            g = rng.randrange(ng); del groups[g], forms[g], layout[g]
+        elif op == "swap" and ng > 1:
+            a, b = rng.sample(range(ng), 2)
+            for lst in (groups, forms, layout):
+                lst[a], lst[b] = lst[b], lst[a]
+        elif op == "glob":
+            glob = _gen_glob(rng, groups, "grouped"); container = "grouped" if (glob and container == "list") else container
+        elif op == "container":
+            container = rng.choice(["flat", "list", "grouped"])
+        else:
+            continue
+        ops.append(op)
+    for g, conf in enumerate(groups):
+        _set_markers(conf, g)
+    if container == "flat" and len(groups) > 1:
+        container = "grouped"
+    if container == "list":
+        glob = {}
+    avail = {"date", "longitude", "latitude", "depth"} | attr_names(groups)
+    if "columns" in glob and not set(glob["columns"]) <= avail:
+        glob = _gen_glob(rng, groups, container)      # the old selection names a column the edited groups do not have
+    return dict(groups=groups, forms=forms, layout=layout, container=container, glob=glob,
+                change="previous version edited: " + (", ".join(ops) or "markers only"))
+
+
+def build_session(rng):
+    """A *session*: 2..5 configurations handed to `make_release` one after the other in one process THROUGH THE SAME
+    NAME OR OBJECT - the user edits release.yaml and runs again; a script writes one scratch yaml per farm / month and
+    converts it.  Every call is a call on a valid configuration (the content the name / object has at that moment) and is
+    judged on its own.  Channels: one yaml file name rewritten between the calls; two file names used in turn; one stream
+    object rewritten and rewound; one python object whose content (and whose group mappings' content) is replaced in
+    place.  The GeoJSON location files of group position g keep their name through the session as well (rewritten when
+    that group's location changes), and the output file either keeps one name through the session or not."""
+    channel = rng.choice(["yaml.file.same_name"] * 3 + ["yaml.file.two_names", "yaml.stream.same_object", "object.content_replaced"])
+    rich = channel == "object.content_replaced"
+    nver = rng.choice([3, 4, 5]) if channel == "yaml.file.two_names" else rng.choice([2, 2, 3, 4])
+    versions = []
+    for v in range(nver):
+        if v >= 2 and rng.random() < 0.15:
+            ver = copy.deepcopy(versions[v - 2]); ver["change"] = "back to the version before the previous one"
+        else:
+            ver = _session_version(rng, versions[-1] if versions else None, rich)
+        versions.append(ver)
+    return dict(channel=channel, rich=rich, versions=versions,
+                name_of=[rng.randrange(2) if channel == "yaml.file.two_names" else 0 for _ in range(nver)],
+                out_same_name=rng.random() < 0.5, writes=[rng.random() < 0.4 for _ in range(nver)],
+                geo_how=[{g: ("file" if (not rich or rng.random() < 0.5) else "stream") for g in range(5)} for _ in range(nver)],
+                yaml_style=dict(default_flow_style=rng.choice([None, False, True]), allow_unicode=rng.random() < 0.5))
+
+
+def _san(groups):
+    return [{kk: (v if not callable(v) else "<callable>") for kk, v in g.items()} for g in groups]
+
+
+def _run_sessions(ctx, mk, drv, pend, tmp):
+    """names / objects used again with OTHER content (see build_session).  The property quantifies over every valid
+    configuration, however it is delivered: the table of a call is the table of the configuration the file name / stream /
+    object holds at the time of that call.  Each call is judged by `judge` (row count, per-group counts, columns, row
+    integrity, zero fill, written file) against a deep copy of the version written for it - nothing is taken from /repo."""
+    import yaml
+    for c in range(ctx.n(60, 800)):
+        plan = build_session(ctx.rng)
+        channel = plan["channel"]
+        stem = os.path.join(tmp, "session%d" % c)
+        names = [stem + "_release.yaml", stem + "_release_b.yaml"]
+        last_text = {}                      # configuration file name -> text it held at its last use
+        last_geo = {}                       # GeoJSON file name -> text it held at its last use
+        out_used = set()
+        stream = io.StringIO()
+        obj = None
+        earlier = []; prev = None
+        for k, ver in enumerate(plan["versions"]):
+            groups = copy.deepcopy(ver["groups"])             # the reference: what the user wrote for this call
+            forms, container, glob = ver["forms"], ver["container"], copy.deepcopy(ver["glob"])
+            total = int(sum(g["num"] for g in groups))
+            deliver = {g: plan["geo_how"][k][g] for g in range(len(groups)) if forms[g] == "geojson"}
+            # the configuration of this call; GeoJSON locations of group position g keep one file name through the session
+            geo_rewritten = False
+            for g, how in deliver.items():
+                nm = "%s_g%d.geojson" % (stem, g)
+                if how == "file":
+                    if nm in last_geo and last_geo[nm] != groups[g]["location"]:
+                        geo_rewritten = True
+                    last_geo[nm] = groups[g]["location"]
+            wconf = wrap(copy.deepcopy(ver["groups"]), container, glob, deliver, stem)
+            text = None; cname = None; arg = None
+            if channel.startswith("yaml"):
+                text = yaml.safe_dump(wconf, sort_keys=False, **plan["yaml_style"])
+                try:
+                    same = yaml.safe_load(text) == wconf
+                except Exception:
+                    same = False
+                if not same:
+                    ctx.branch("session.yaml.roundtrip_differs_skipped"); continue
+            if channel.startswith("yaml.file"):
+                cname = names[plan["name_of"][k]]
+                changed = cname in last_text and last_text[cname] != text
+                unchanged = cname in last_text and last_text[cname] == text
+                with open(cname, "w", encoding="utf8") as fh:
+                    fh.write(text)
+                last_text[cname] = text
+                arg = cname
+            elif channel == "yaml.stream.same_object":
+                changed = bool(earlier); unchanged = False
+                stream.seek(0); stream.truncate(0); stream.write(text); stream.seek(0)
+                arg = stream
+            else:
+                changed = bool(earlier); unchanged = False
+                if obj is None or type(obj) is not type(wconf):
+                    obj = wconf
+                    if earlier: ctx.branch("session.object.other_container_type_new_object")
+                elif isinstance(obj, list):
+                    # the group mappings the list held stay the same objects where the new version has a group at that place
+                    for old, new in zip(list(obj), wconf):
+                        old.clear(); old.update(new)
+                    obj[:] = list(obj[:len(wconf)]) + wconf[len(obj):]
+                else:
+                    og = obj.get("groups"); ng_ = wconf.get("groups")
+                    if isinstance(og, list) and isinstance(ng_, list):
+                        for old, new in zip(list(og), ng_):
+                            old.clear(); old.update(new)
+                        ng_ = list(og[:len(ng_)]) + ng_[len(og):]
+                        wconf = dict(wconf, groups=ng_)
+                        ctx.branch("session.object.group_mappings_edited_in_place")
+                    obj.clear(); obj.update(wconf)
+                arg = obj
+            fname = None
+            if plan["writes"][k]:
+                fname = stem + "_particles.rls" if plan["out_same_name"] else "%s_particles_%d.rls" % (stem, k)
+            seed = ctx.sub_seed()
+            here = dict(call=k + 1, config_name=os.path.basename(cname) if cname else None, change=ver["change"],
+                        yaml=text, config=None if text is not None else dict(container=container, glob=glob, groups=_san(groups)))
+            cs = dict(container=container, glob=glob, forms=forms, fname=bool(fname), deliver=deliver,
+                      session=dict(channel=channel, of_calls=len(plan["versions"]), output_name=os.path.basename(fname) if fname else None,
+                                   this_call=here, earlier_calls_in_this_process=list(earlier)),
+                      groups=_san(groups))
+            prev_text = earlier[-1]["yaml"] if earlier else None
+            earlier.append(here)
+            ctx.case(key=repr(cs), nontrivial=total > 0,
+                     sample=dict(container=container, forms=forms, nums=[g["num"] for g in groups], glob=glob,
+                                 session=dict(channel=channel, call=k + 1, change=ver["change"])) if c < 1 and k < 2 else None)
+            for f in forms: ctx.branch("form." + f)
+            ctx.branch("container." + container); ctx.branch("columns" if "columns" in glob else "default_columns"); ctx.size("groups", len(groups))
+            ctx.branch("session.channel." + channel); ctx.branch("session.container." + container)
+            ctx.size("session.call_number", k + 1)
+            if changed:
+                ctx.branch("session.name_or_object_used_again_with_other_content")
+                ctx.branch("session.used_again." + channel)
+                if channel != "yaml.file.two_names" and prev is not None:
+                    if sum(int(g["num"]) for g in prev["groups"]) != total: ctx.branch("session.used_again.other_total_num")
+                    if len(prev["groups"]) != len(groups): ctx.branch("session.used_again.other_group_count")
+                    if prev["glob"].get("columns") != glob.get("columns"): ctx.branch("session.used_again.other_columns")
+                    if prev["container"] != container: ctx.branch("session.used_again.other_container")
+                    if text is not None and prev_text is not None and len(text) == len(prev_text): ctx.branch("session.used_again.text_of_same_length")
+                if ver["change"].startswith("previous"): ctx.branch("session.used_again.edited_version")
+                if ver["change"].startswith("back"): ctx.branch("session.used_again.back_to_older_version")
+            prev = ver
+            if unchanged: ctx.branch("session.name_used_again_unchanged_content")
+            if geo_rewritten: ctx.branch("session.geojson_file_name_used_again_with_other_content")
+            if fname:
+                ctx.branch("fname")
+                if fname in out_used: ctx.branch("session.output_name_used_again")
+                out_used.add(fname)
+            for g, how in deliver.items(): ctx.branch("geojson.deliver." + how)
+            for conf in groups:
+                ctx.branch("markers.explicit" if "grp" in conf.get("attrs", {}) else "markers.implicit")
+                if "attrs" not in conf: ctx.branch("group.no_attrs_mapping")
+            gj = {g: feature_polys(groups[g]["location"]) for g in range(len(groups)) if forms[g] == "geojson"}
+            try:
+                with Spy(mk) as spy:
+                    with RngRecorder(seed) as rec:
+                        res = mk.make_release(arg, fname) if fname else mk.make_release(arg)
+            except Exception as e:
+                ctx.oracle(False, "C01.make_release.raises", SITE, "valid configuration raised %r (call %d of the session, %s)" % (
+                    e, k + 1, channel), cs)
+                break
+            judge(ctx, mk, res, spy, groups, forms, glob, fname, total, cs, gj)
+            if drv.available:
+                try:
+                    ps = pieces(mk, groups, glob, seed)
+                except Exception as e:
+                    ctx.disagreement("make_release.pieces", "replaying the group generators raised %r" % (e,), cs); continue
+                j = drv.ask("table.make", table_toks(ps, glob.get("columns")))
+                pend.append((j, res, cs))
+
+
 def run(ctx):
     tmp = tempfile.mkdtemp(prefix="verif_c01_")
     try:
@@ -864,6 +1144,7 @@ def _run(ctx, tmp):
             j = drv.ask("table.make", table_toks(ps, glob.get("columns")))
             pend.append((j, res, cs))
     _run_reuse(ctx, mk, drv, pend, tmp)
+    _run_sessions(ctx, mk, drv, pend, tmp)
     if drv.available:
         rep = drv.run()
         for j, res, cs in pend:
